@@ -617,6 +617,18 @@ func (r *syncRun) noTrace(f *syncFollower, fresh *follower) {
 		b, _ := json.Marshal(v) // maps are marshalled with sorted keys
 		return string(b)
 	}
+	la, pa2 := listQueries(f.ch.GetFrontierMomentumStore())
+	lb, pb2 := listQueries(fresh.ch.GetFrontierMomentumStore())
+	if pa2 != "" && pb2 == "" {
+		c.Fail("C06: follower %d (after %d chain switches) cannot answer a ledger query that a node that only saw its current chain answers: %s", f.id, f.switches, pa2)
+		return
+	}
+	for i := range la {
+		if la[i] != lb[i] {
+			c.Fail("C06: follower %d (after %d chain switches) answers %.300s — a node that only saw its current chain: %.300s", f.id, f.switches, la[i], lb[i])
+			return
+		}
+	}
 	ra, rb := f.cons.FrontierPillarReader(), fresh.cons.FrontierPillarReader()
 	for e := uint64(0); e < 2; e++ {
 		if a, b := js(ra.EpochStats(e)), js(rb.EpochStats(e)); a != b {
